@@ -117,7 +117,7 @@ func (r *Report) Trust(s string)                     { r.Trusted = appendUniq(r.
 func (r *Report) Uncovered(s string)                 { r.NotCovered = appendUniq(r.NotCovered, s) }
 func (r *Report) Cond(ok bool, rule, key, pos, detail string) {
 	if ok {
-		r.OK(rule, key, pos, detail)
+		r.OK(rule, key, pos, "")
 	} else {
 		r.Bad(rule, key, pos, detail)
 	}
